@@ -78,6 +78,21 @@ func (t *translator) text(n ast.Node) string {
 	return strings.TrimSpace(wsRe.ReplaceAllString(b.String(), " "))
 }
 
+// loopHeader prints a for / range statement without its body
+func (t *translator) loopHeader(s ast.Stmt) string {
+	switch v := s.(type) {
+	case *ast.RangeStmt:
+		c := *v
+		c.Body = &ast.BlockStmt{}
+		return t.text(&c)
+	case *ast.ForStmt:
+		c := *v
+		c.Body = &ast.BlockStmt{}
+		return t.text(&c)
+	}
+	return ""
+}
+
 type renv map[string]string // atom text -> atom text (renames); identity when absent
 
 func (e renv) with(r map[string]string) renv {
@@ -127,9 +142,18 @@ func (t *translator) expr(x ast.Expr, e renv) (string, string) {
 			}
 			return "(negb " + a + ")", "bool"
 		}
+	case *ast.SliceExpr:
+		if v.Low == nil && v.High == nil && v.Max == nil {
+			return t.expr(v.X, e) // x[:] of an array: the same bytes
+		}
 	case *ast.CallExpr:
 		if id, ok := v.Fun.(*ast.Ident); ok && len(v.Args) == 1 {
 			switch id.Name {
+			case "string":
+				// string(b[:]) compared with < > ==: byte-wise order of the array, which the interning preserves
+				if _, isSlice := v.Args[0].(*ast.SliceExpr); isSlice {
+					return t.expr(v.Args[0], e)
+				}
 			case "int", "int64", "uint64", "uint32", "int32", "uint":
 				// conversion between integer types: identity on the ranges stated with the obligation
 				return t.expr(v.Args[0], e)
@@ -330,6 +354,14 @@ func (t *translator) stmts(l []ast.Stmt, acts []int, e renv, k cont) string {
 		return build(0)
 	case *ast.EmptyStmt:
 		return next(acts, e)
+	case *ast.RangeStmt, *ast.ForStmt:
+		// a nested loop is one opaque, white-listed action identified by its header; its body is a
+		// translation unit of its own (Loop: k)
+		hdr := t.loopHeader(s)
+		if id, ok := t.spec.Actions[hdr]; ok {
+			return next(appendAct(acts, id), e)
+		}
+		panic(trErr{"loop not in the action table: " + hdr})
 	default:
 		txt := t.text(s)
 		if r, ok := t.spec.Binders[txt]; ok {
@@ -493,4 +525,61 @@ func runTranslator(repo, outDir, pinPath string, pin bool) {
 		pj, _ := json.MarshalIndent(pinned, "", " ")
 		os.WriteFile(pinPath, pj, 0o644)
 	}
+}
+
+// dumpFunc prints the normalised text of every statement / loop header / if-initialiser of a function:
+// what the Binders / Actions tables of a spec are written from.  usage: gen -dump <repo> <file> <func>
+func dumpFunc(repo, file, fn string) {
+	fset := token.NewFileSet()
+	f, err := parser.ParseFile(fset, filepath.Join(repo, file), nil, 0)
+	if err != nil {
+		fmt.Println(err)
+		return
+	}
+	fd := findFunc(f, fn)
+	if fd == nil {
+		fmt.Println("not found")
+		return
+	}
+	t := &translator{spec: &trSpec{}, fset: fset}
+	loops := 0
+	var walk func(l []ast.Stmt, ind string)
+	walk = func(l []ast.Stmt, ind string) {
+		for _, s := range l {
+			switch v := s.(type) {
+			case *ast.BlockStmt:
+				walk(v.List, ind+"  ")
+			case *ast.IfStmt:
+				if v.Init != nil {
+					fmt.Printf("%sINIT  %q\n", ind, t.text(v.Init))
+				}
+				fmt.Printf("%sIF    %s\n", ind, t.text(v.Cond))
+				walk(v.Body.List, ind+"  ")
+				if v.Else != nil {
+					fmt.Printf("%sELSE\n", ind)
+					walk([]ast.Stmt{v.Else}, ind+"  ")
+				}
+			case *ast.SwitchStmt:
+				fmt.Printf("%sSWITCH %s\n", ind, t.text(v.Tag))
+				for _, c := range v.Body.List {
+					cc := c.(*ast.CaseClause)
+					fmt.Printf("%s CASE\n", ind)
+					walk(cc.Body, ind+"  ")
+				}
+			case *ast.RangeStmt:
+				loops++
+				fmt.Printf("%sLOOP%d %q\n", ind, loops, t.loopHeader(v))
+				walk(v.Body.List, ind+"  ")
+			case *ast.ForStmt:
+				loops++
+				fmt.Printf("%sLOOP%d %q\n", ind, loops, t.loopHeader(v))
+				walk(v.Body.List, ind+"  ")
+			case *ast.ReturnStmt, *ast.BranchStmt:
+				fmt.Printf("%s%s\n", ind, t.text(s))
+			default:
+				fmt.Printf("%sSTMT  %q\n", ind, t.text(s))
+			}
+		}
+	}
+	walk(fd.Body.List, "")
 }
